@@ -26,6 +26,17 @@ pub enum DeError {
     TooManyEvents(NonZeroUsize),
     Other,
 }
+impl vstd::std_specs::convert::FromSpecImpl<Error> for DeError {
+    open spec fn obeys_from_spec() -> bool { true }
+    open spec fn from_spec(e: Error) -> Self { DeError::InvalidXml(e) }
+}
+impl From<Error> for DeError {
+//@extract errors::DeError::from_error#dq | src/errors.rs :: mod serialize :: impl From<Error> for DeError :: fn from | serves=C20 features=serialize,overlapped-lists
+        fn from(e: Error) -> Self {
+            Self::InvalidXml(e)
+        }
+//@end
+}
 /// the events produced by the reader are well-formed values (C03: name_len <= buf.len())
 pub open spec fn de_wf<'a>(e: DeEvent<'a>) -> bool {
     match e { DeEvent::Start(s) => s.name_len <= s.buf@.len(), _ => true }
@@ -99,6 +110,9 @@ impl<'de, R: XmlRead<'de>, E: EntityResolver> XmlReader<'de, R, E> {
             Err(_) => final(self).future@ == old(self).future@,
         }
     { unimplemented!() }
+    /// model of XmlReader::decoder
+    #[verifier::external_body]
+    pub fn decoder(&self) -> Decoder { unimplemented!() }
     /// model of XmlReader::read_to_end (assumed; for the plain reader this is C12): consumes the events up to and
     /// including the End that closes `name`, counting nested elements of the same name
     #[verifier::external_body]
@@ -428,6 +442,445 @@ where
         }
         proof { assert(skip_extent(p0, n)); }
         Ok(())
+    }
+//@end
+//@extract de::Deserializer::peek#ol | src/de/mod.rs :: impl<'de, R, E> Deserializer<'de, R, E> where R: XmlRead<'de>, E: EntityResolver, :: fn peek | serves=C20,C07 features=serialize,overlapped-lists
+    fn peek(&mut self) -> (r: Result<&DeEvent<'de>, DeError>)
+        requires old(self).qwf()
+        ensures final(self).qwf(), final(self).held() == old(self).held(), final(self).limit == old(self).limit,
+            // looking does not consume: the pending events are the same, and the one shown is their head
+            final(self).pending() == old(self).pending(),
+            r matches Ok(e) ==> old(self).pending().len() > 0 && *e == old(self).pending()[0] && de_wf(*e),
+    {
+        let ghost p0 = self.pending();
+        if self.read.is_empty() {
+            proof { assert(p0 =~= self.reader.future@); }
+            self.read.push_front(self.reader.next()?);
+        }
+        proof { assert(self.pending() =~= p0); }
+        if let Some(event) = self.read.front() {
+            return Ok(event);
+        }
+        // SAFETY: `self.read` was filled in the code above.
+        // NOTE: Can be replaced with `unsafe { std::hint::unreachable_unchecked() }`
+        // if unsafe code will be allowed
+        unreachable!()
+    }
+//@end
+}
+
+// ---------------------------------------------------------------------------------------------
+// Which events a list skips (src/de/map.rs, MapValueSeqAccess::next_element_seed, overlapped-lists build):
+// C20 mechanism "skips non-matching tags": a list looks at the next event; an element whose tag does not belong to
+// the list is moved -- whole -- to the held queue (Deserializer::skip, above) and the list looks again; it stops at
+// the first event that is NOT such an element and hands the seed that event (Text or a suitable Start), or ends
+// (End), or fails (Eof). Nothing else is ever skipped, nothing is dropped.
+// ---------------------------------------------------------------------------------------------
+use core::ops::Range;
+/// whether the tag belongs to the fields of the struct (assumed: `not_in` decodes the local name and compares it with the
+/// field names -- a FUNCTION of its arguments; `fields.iter().all(..)` is outside the Verus subset)
+pub uninterp spec fn spec_not_in(fields: &'static [&'static str], start: Seq<u8>, d: Decoder) -> Result<bool, DeError>;
+#[verifier::external_body]
+pub fn not_in(fields: &'static [&'static str], start: &BytesStart, decoder: Decoder) -> (r: Result<bool, DeError>)
+    requires start.name_len <= start.buf@.len()
+    ensures r == spec_not_in(fields, start.buf@.subrange(0, start.name_len as int), decoder)
+{ unimplemented!() }
+
+//@extract de::map::TagFilter | src/de/map.rs :: enum TagFilter | serves=C20 features=serialize,overlapped-lists
+pub enum TagFilter<'de> {
+    /// A `SeqAccess` interested only in tags with specified name to deserialize
+    /// an XML like this:
+    ///
+    /// ```xml
+    /// <...>
+    ///   <tag/>
+    ///   <tag/>
+    ///   <tag/>
+    ///   ...
+    /// </...>
+    /// ```
+    ///
+    /// The tag name is stored inside (`b"tag"` for that example)
+    Include(BytesStart<'de>), //TODO: Need to store only name instead of a whole tag
+    /// A `SeqAccess` interested in tags with any name, except explicitly listed.
+    /// Excluded tags are used as struct field names and therefore should not
+    /// fall into a `$value` category
+    Exclude(&'static [&'static str]),
+}
+//@end
+/// C20: does an element with this tag belong to the list? Include: the same qualified name as the first element of the
+/// list; Exclude: no field of the struct has this (local) name
+pub open spec fn suit<'de>(f: TagFilter<'de>, start: BytesStart, d: Decoder) -> Result<bool, DeError> {
+    match f {
+        TagFilter::Include(n) => Ok(n.buf@.subrange(0, n.name_len as int) == start.buf@.subrange(0, start.name_len as int)),
+        TagFilter::Exclude(fields) => spec_not_in(fields, start.buf@.subrange(0, start.name_len as int), d),
+    }
+}
+impl<'de> TagFilter<'de> {
+//@extract de::map::TagFilter::is_suitable | src/de/map.rs :: impl<'de> TagFilter<'de> :: fn is_suitable | serves=C20 features=serialize,overlapped-lists
+    fn is_suitable(&self, start: &BytesStart, decoder: Decoder) -> (r: Result<bool, DeError>)
+        requires start.name_len <= start.buf@.len(), *self matches TagFilter::Include(n) ==> n.name_len <= n.buf@.len(),
+        ensures r == suit(*self, *start, decoder)
+    {
+        proof { axiom_seq_eq_u8(); }
+        match self {
+            Self::Include(n) => Ok(n.name() == start.name()),
+            Self::Exclude(fields) => not_in(fields, start, decoder),
+        }
+    }
+//@end
+}
+//@extract de::map::ValueSource | src/de/map.rs :: enum ValueSource | serves=C20 features=serialize,overlapped-lists
+enum ValueSource {
+    /// Source are not specified, because [`next_key_seed()`] not yet called.
+    /// This is an initial state and state after deserializing value
+    /// (after call of [`next_value_seed()`]).
+    ///
+    /// Attempt to call [`next_value_seed()`] while accessor in this state would
+    /// return a [`DeError::KeyNotRead`] error.
+    ///
+    /// [`next_key_seed()`]: MapAccess::next_key_seed
+    /// [`next_value_seed()`]: MapAccess::next_value_seed
+    Unknown,
+    /// Next value should be deserialized from an attribute value; value is located
+    /// at specified span.
+    Attribute(Range<usize>),
+    /// Value should be deserialized from the text content of the XML node, which
+    /// represented or by an ordinary text node, or by a CDATA node:
+    ///
+    /// ```xml
+    /// <any-tag>
+    ///     <key>text content</key>
+    /// <!--     ^^^^^^^^^^^^ - this will be used to deserialize map value -->
+    /// </any-tag>
+    /// ```
+    /// ```xml
+    /// <any-tag>
+    ///     <key><![CDATA[cdata content]]></key>
+    /// <!--              ^^^^^^^^^^^^^ - this will be used to deserialize a map value -->
+    /// </any-tag>
+    /// ```
+    Text,
+    /// Next value should be deserialized from an element with an any name, except
+    /// elements with a name matching one of the struct fields. Corresponding tag
+    /// name will always be associated with a field with name [`VALUE_KEY`].
+    ///
+    /// That state is set when call to [`peek()`] returns a [`Start`] event, which
+    /// [`name()`] is not listed in the [list of known fields] (which for a struct
+    /// is a list of field names, and for a map that is an empty list), _and_
+    /// struct has a field with a special name [`VALUE_KEY`].
+    ///
+    /// When in this state, next event, returned by [`next()`], will be a [`Start`],
+    /// which represents both a key, and a value. Value would be deserialized from
+    /// the whole element and how is will be done determined by the value deserializer.
+    /// The [`ElementMapAccess`] do not consume any events in that state.
+    ///
+    /// Because in that state any encountered `<tag>` is mapped to the [`VALUE_KEY`]
+    /// field, it is possible to use tag name as an enum discriminator, so `enum`s
+    /// can be deserialized from that XMLs:
+    ///
+    /// ```xml
+    /// <any-tag>
+    ///     <variant1>...</variant1>
+    /// <!-- ~~~~~~~~               - this data will determine that this is Enum::variant1 -->
+    /// <!--^^^^^^^^^^^^^^^^^^^^^^^ - this data will be used to deserialize a map value -->
+    /// </any-tag>
+    /// ```
+    /// ```xml
+    /// <any-tag>
+    ///     <variant2>...</variant2>
+    /// <!-- ~~~~~~~~               - this data will determine that this is Enum::variant2 -->
+    /// <!--^^^^^^^^^^^^^^^^^^^^^^^ - this data will be used to deserialize a map value -->
+    /// </any-tag>
+    /// ```
+    ///
+    /// both can be deserialized into
+    ///
+    /// ```ignore
+    /// enum Enum {
+    ///   variant1,
+    ///   variant2,
+    /// }
+    /// struct AnyName {
+    ///   #[serde(rename = "$value")]
+    ///   field: Enum,
+    /// }
+    /// ```
+    ///
+    /// That is possible, because value deserializer have access to the full content
+    /// of a `<variant1>...</variant1>` or `<variant2>...</variant2>` node, including
+    /// the tag name.
+    ///
+    /// [`Start`]: DeEvent::Start
+    /// [`peek()`]: Deserializer::peek()
+    /// [`next()`]: Deserializer::next()
+    /// [`name()`]: BytesStart::name()
+    /// [`Text`]: Self::Text
+    /// [list of known fields]: ElementMapAccess::fields
+    Content,
+    /// Next value should be deserialized from an element with a dedicated name.
+    /// If deserialized type is a sequence, then that sequence will collect all
+    /// elements with the same name until it will be filled. If not all elements
+    /// would be consumed, the rest will be ignored.
+    ///
+    /// That state is set when call to [`peek()`] returns a [`Start`] event, which
+    /// [`name()`] represents a field name. That name will be deserialized as a key.
+    ///
+    /// When in this state, next event, returned by [`next()`], will be a [`Start`],
+    /// which represents both a key, and a value. Value would be deserialized from
+    /// the whole element and how is will be done determined by the value deserializer.
+    /// The [`ElementMapAccess`] do not consume any events in that state.
+    ///
+    /// An illustration below shows, what data is used to deserialize key and value:
+    /// ```xml
+    /// <any-tag>
+    ///     <key>...</key>
+    /// <!-- ~~~           - this data will be used to deserialize a map key -->
+    /// <!--^^^^^^^^^^^^^^ - this data will be used to deserialize a map value -->
+    /// </any-tag>
+    /// ```
+    ///
+    /// Although value deserializer will have access to the full content of a `<key>`
+    /// node (including the tag name), it will not get much benefits from that,
+    /// because tag name will always be fixed for a given map field (equal to a
+    /// field name). So, if the field type is an `enum`, it cannot select its
+    /// variant based on the tag name. If that is needed, then [`Content`] variant
+    /// of this enum should be used. Such usage is enabled by annotating a struct
+    /// field as "content" field, which implemented as given the field a special
+    /// [`VALUE_KEY`] name.
+    ///
+    /// [`Start`]: DeEvent::Start
+    /// [`peek()`]: Deserializer::peek()
+    /// [`next()`]: Deserializer::next()
+    /// [`name()`]: BytesStart::name()
+    /// [`Content`]: Self::Content
+    Nested,
+}
+//@end
+//@extract de::map::ElementMapAccess | src/de/map.rs :: struct ElementMapAccess | serves=C20 features=serialize,overlapped-lists
+//@rewrite iter: IterState, ==> 
+ struct ElementMapAccess<'de, 'd, R, E>
+where
+    R: XmlRead<'de>,
+    E: EntityResolver,
+{
+    /// Tag -- owner of attributes
+    start: BytesStart<'de>,
+    de: &'d mut Deserializer<'de, R, E>,
+    /// State of the iterator over attributes. Contains the next position in the
+    /// inner `start` slice, from which next attribute should be parsed.
+    source: ValueSource,
+    /// List of field names of the struct. It is empty for maps
+    fields: &'static [&'static str],
+    /// If `true`, then the deserialized struct has a field with a special name:
+    /// [`VALUE_KEY`]. That field should be deserialized from the whole content
+    /// of an XML node, including tag name:
+    ///
+    /// ```xml
+    /// <tag>value for VALUE_KEY field<tag>
+    /// ```
+    has_value_field: bool,
+}
+//@end
+//@extract de::map::MapValueSeqAccess | src/de/map.rs :: struct MapValueSeqAccess | serves=C20 features=serialize,overlapped-lists
+////////////////////////////////////////////////////////////////////////////////////////////////////
+
+/// An accessor to sequence elements forming a value for struct field.
+/// Technically, this sequence is flattened out into structure and sequence
+/// elements are overlapped with other fields of a structure. Each call to
+/// [`Self::next_element_seed`] consumes a next sub-tree or consequent list
+/// of [`Text`] and [`CData`] events.
+///
+/// ```xml
+/// <>
+///   ...
+///   <item>The is the one item</item>
+///   This is <![CDATA[one another]]> item<!-- even when--> it splitted by comments
+///   <tag>...and that is the third!</tag>
+///   ...
+/// </>
+/// ```
+///
+/// Depending on [`Self::filter`], only some of that possible constructs would be
+/// an element.
+///
+/// [`Text`]: crate::events::Event::Text
+/// [`CData`]: crate::events::Event::CData
+struct MapValueSeqAccess<'de, 'd, 'm, R, E>
+where
+    R: XmlRead<'de>,
+    E: EntityResolver,
+{
+    /// Accessor to a map that creates this accessor and to a deserializer for
+    /// a sequence items.
+    map: &'m mut ElementMapAccess<'de, 'd, R, E>,
+    /// Filter that determines whether a tag is a part of this sequence.
+    ///
+    /// When feature [`overlapped-lists`] is not activated, iteration will stop
+    /// when found a tag that does not pass this filter.
+    ///
+    /// When feature [`overlapped-lists`] is activated, all tags, that not pass
+    /// this check, will be skipped.
+    ///
+    /// [`overlapped-lists`]: ../../index.html#overlapped-lists
+    filter: TagFilter<'de>,
+
+    /// Checkpoint after which all skipped events should be returned. All events,
+    /// that was skipped before creating this checkpoint, will still stay buffered
+    /// and will not be returned
+    checkpoint: usize,
+}
+//@end
+//@extract de::map::ElementDeserializer | src/de/map.rs :: struct ElementDeserializer | serves=C20 features=serialize,overlapped-lists
+////////////////////////////////////////////////////////////////////////////////////////////////////
+
+/// A deserializer for a single tag item of a mixed sequence of tags and text.
+///
+/// This deserializer are very similar to a [`MapValueDeserializer`] (when it
+/// processes the [`DeEvent::Start`] event). The only difference in the
+/// [`deserialize_seq`] method. This deserializer will perform deserialization
+/// from the textual content between start and end events, whereas the
+/// [`MapValueDeserializer`] will iterate over tags / text within it's parent tag.
+///
+/// This deserializer processes items as following:
+/// - numbers are parsed from a text content between tags using [`FromStr`]. So,
+///   `<int>123</int>` can be deserialized into an `u32`;
+/// - booleans converted from a text content between tags according to the XML
+///   [specification]:
+///   - `"true"` and `"1"` converted to `true`;
+///   - `"false"` and `"0"` converted to `false`;
+/// - strings returned as a text content between tags;
+/// - characters also returned as strings. If string contain more than one character
+///   or empty, it is responsibility of a type to return an error;
+/// - `Option` are always deserialized as `Some` using the same deserializer,
+///   including `<tag/>` or `<tag></tag>`;
+/// - units (`()`) and unit structs consumes the whole element subtree;
+/// - newtype structs forwards deserialization to the inner type using
+///   [`SimpleTypeDeserializer`];
+/// - sequences, tuples and tuple structs are deserialized using [`SimpleTypeDeserializer`]
+///   (this is the difference): text content between tags is passed to
+///   [`SimpleTypeDeserializer`];
+/// - structs and maps are deserialized using new instance of [`ElementMapAccess`];
+/// - enums:
+///   - the variant name is deserialized using [`QNameDeserializer`] from the element name;
+///   - the content is deserialized using the same deserializer:
+///     - unit variants: consuming a subtree and return `()`;
+///     - newtype variants forwards deserialization to the inner type using
+///       this deserializer;
+///     - tuple variants: call [`deserialize_tuple`] of this deserializer;
+///     - struct variants: call [`deserialize_struct`] of this deserializer.
+///
+/// [`deserialize_seq`]: #method.deserialize_seq
+/// [`FromStr`]: std::str::FromStr
+/// [specification]: https://www.w3.org/TR/xmlschema11-2/#boolean
+/// [`deserialize_tuple`]: #method.deserialize_tuple
+/// [`deserialize_struct`]: #method.deserialize_struct
+struct ElementDeserializer<'de, 'd, R, E>
+where
+    R: XmlRead<'de>,
+    E: EntityResolver,
+{
+    start: BytesStart<'de>,
+    de: &'d mut Deserializer<'de, R, E>,
+}
+//@end
+//@extract de::text::TextDeserializer | src/de/text.rs :: struct TextDeserializer | serves=C20 features=serialize,overlapped-lists
+ struct TextDeserializer<'de>(pub Text<'de>);
+//@end
+/// Model of serde::de::DeserializeSeed (A-serde): what a seed does with the deserializer it is handed is not constrained;
+/// the two deserializers a list hands out are marked
+pub trait DeModel {}
+impl<'de> DeModel for TextDeserializer<'de> {}
+impl<'de, 'd, R: XmlRead<'de>, E: EntityResolver> DeModel for ElementDeserializer<'de, 'd, R, E> {}
+pub trait DeserializeSeed<'de>: Sized {
+    type Value;
+    fn deserialize<D: DeModel>(self, deserializer: D) -> Result<Self::Value, DeError>;
+}
+impl<'de, 'd, 'm, R, E> MapValueSeqAccess<'de, 'd, 'm, R, E>
+where
+    R: XmlRead<'de>,
+    E: EntityResolver,
+{
+//@extract de::map::MapValueSeqAccess::next_element_seed | src/de/map.rs :: impl<'de, 'd, 'm, R, E> SeqAccess<'de> for MapValueSeqAccess<'de, 'd, 'm, R, E> where R: XmlRead<'de>, E: EntityResolver, :: fn next_element_seed | serves=C20,C07 features=serialize,overlapped-lists
+//@rewrite-all .map(Some) ==> .map(|v__: T::Value| Some(v__))
+//@rewrite assert!(self.map.start.name() == e.name()); ==> 
+    #[verifier::loop_isolation(false)]
+    fn next_element_seed<T>(&mut self, seed: T) -> (r: Result<Option<T::Value>, DeError>)
+    where
+        T: DeserializeSeed<'de>,
+        requires old(self).map.de.qwf(), old(self).map.start.name_len <= old(self).map.start.buf@.len(),
+            old(self).filter matches TagFilter::Include(n) ==> n.name_len <= n.buf@.len(),
+    {
+        let decoder = self.map.de.reader.decoder();
+        let ghost p0 = self.map.de.pending();
+        let ghost h0 = self.map.de.held();
+        let ghost flt = self.filter;
+        // m: how many of the pending events have been moved to the held queue; starts: where each skipped element began
+        let ghost mut m: int = 0;
+        let ghost mut starts: Seq<int> = Seq::empty();
+        proof { assert(p0.subrange(0, p0.len() as int) =~= p0); assert(h0 + p0.subrange(0, 0) =~= h0); }
+        let __lv1; loop
+            invariant
+                self.map.de.qwf(), self.filter == flt, self.map.start == old(self).map.start, self.map.de.limit == old(self).map.de.limit,
+                0 <= m <= p0.len(),
+                // C20: nothing is lost, duplicated or re-ordered ...
+                self.map.de.pending() == p0.subrange(m, p0.len() as int),
+                self.map.de.held() == h0 + p0.subrange(0, m),
+                // ... and only WHOLE elements whose tag does not belong to the list were skipped
+                forall|i: int| 0 <= i < starts.len() ==> 0 <= #[trigger] starts[i] < m
+                    && (p0[starts[i]] matches DeEvent::Start(e) && suit(flt, e, decoder) == Result::<bool, DeError>::Ok(false)),
+            decreases p0.len() - m
+        {
+            { __lv1 = match self.map.de.peek()? {
+                // If we see a tag that we not interested, skip it
+                DeEvent::Start(e) if !self.filter.is_suitable(e, decoder)? => {
+                    let ghost cur = self.map.de.pending();
+                    let ghost hcur = self.map.de.held();
+                    self.map.de.skip()?;
+                    proof {
+                        let n = choose|n: int| 1 <= n <= cur.len()
+                            && self.map.de.pending() == cur.subrange(n, cur.len() as int)
+                            && #[trigger] self.map.de.held() == hcur + cur.subrange(0, n)
+                            && skip_extent(cur, n);
+                        assert(cur[0] == p0[m]);
+                        assert(cur.subrange(n, cur.len() as int) =~= p0.subrange(m + n, p0.len() as int));
+                        assert(hcur + cur.subrange(0, n) =~= h0 + p0.subrange(0, m + n));
+                        starts = starts.push(m);
+                        m = m + n;
+                    }
+                    continue;
+                }
+
+                // Stop iteration after reaching a closing tag
+                // The matching tag name is guaranteed by the reader
+                DeEvent::End(e) => {
+                    // the list ends at the End of the enclosing element: p0[m]
+                    proof { assert(p0[m] is End); }
+                    Ok(None)
+                }
+                // We cannot get `Eof` legally, because we always inside of the
+                // opened tag `self.map.start`
+                DeEvent::Eof => Err(Error::missed_end(self.map.start.name(), decoder).into()),
+
+                DeEvent::Text(_) => match self.map.de.next()? {
+                    // C20: the seed gets the first pending event that is not an element foreign to the list: here a text
+                    DeEvent::Text(e) => seed.deserialize(TextDeserializer(e)).map(|v__: T::Value| Some(v__)),
+                    // SAFETY: we just checked that the next event is Text
+                    _ => unreachable!(),
+                },
+                DeEvent::Start(_) => match self.map.de.next()? {
+                    // ... here an element that belongs to the list (`suit` is Ok(true): the guard above did not take it)
+                    DeEvent::Start(start) => { proof { assert(p0[m] == DeEvent::Start(start)); assert(suit(flt, start, decoder) == Result::<bool, DeError>::Ok(true)); } seed
+                        .deserialize(ElementDeserializer {
+                            start,
+                            de: self.map.de,
+                        })
+                        .map(|v__: T::Value| Some(v__)) },
+                    // SAFETY: we just checked that the next event is Start
+                    _ => unreachable!(),
+                },
+            }; break; };
+        } __lv1
     }
 //@end
 }
